@@ -74,3 +74,22 @@ Theorem C02_client_exposes_only_wf : forall sc,
   (spkts sc' <> [] -> r = ROk).
 Proof. exact only_wf_exposed. Qed.
 Print Assumptions C02_client_exposes_only_wf.
+
+(* The model IS the code: Message.Validate, Checksum and the accessors as REGENERATED statement by statement from
+   message.go on this run (Gen/Bytes.v; every index and slice a possible panic) agree with the model above on every
+   byte string - so the theorems of this file are about what the source says now, not about sampled behaviour. *)
+Require Import Base.GoBytes Gen.Bytes Tie.BytesAgree.
+Theorem C02_validate_model_is_the_source : forall m, g_verdict (g_Message_Validate m) = h_verdict (validate m).
+Proof. exact validate_agrees. Qed.
+Theorem C02_checksum_model_is_the_source : forall m, g_Message_Checksum m = Val (Z.of_N (checksum m)).
+Proof. exact checksum_agrees. Qed.
+Theorem C02_accessor_models_are_the_source : forall m, wf_bytes m ->
+  g_Message_Identifier m = match identifier m with Some b => Val (Z.of_N b) | None => Pan end /\
+  g_Message_IsExtended m = match is_extended m with Some b => Val b | None => Pan end /\
+  g_Message_Length m = match msg_length m with Some L => Val (Z.of_N L) | None => Pan end /\
+  ((forall L, msg_length m = Some L -> (L <= 65529)%N) ->
+   g_Message_Data m = match msg_data m with Some d => Val d | None => Pan end).
+Proof.
+  intros m Hw. repeat split; [apply identifier_agrees|apply is_extended_total|apply length_agrees|apply data_agrees]; assumption.
+Qed.
+Print Assumptions C02_validate_model_is_the_source.
